@@ -58,8 +58,9 @@ def table_cases(draw):
     if max(p) <= 0:
         p[draw(st.integers(0, n - 1))] = 1.0
     return {"seed": draw(st.integers(0, 2**31)), "grid": grid, "widths": widths, "shape": shape, "p": p,
-            "x0": draw(st.sampled_from([0.0, -3.0, 1e3])), "scale": 10 ** draw(st.floats(-3, 3)),
-            "pscale": 10 ** draw(st.floats(-3, 3))}
+            "x0": draw(st.sampled_from([0.0, -3.0, 1e3])), "scale": 10 ** draw(st.one_of(st.floats(-3, 3), st.sampled_from([-10.0, 8.0, 10.0]))),
+            # tables in any units (a normalised density of a parameter of natural scale 1e10 has values ~1e-10), normalised or not
+            "pscale": 10 ** draw(st.one_of(st.floats(-3, 3), st.sampled_from([-14.0, -12.0, -9.0, 9.0, 12.0])))}
 
 
 def pw_cdf_factory(x, p):
